@@ -476,7 +476,7 @@ static void ProcessFile(char const* FileName, LongWord Offset) {
                         errno = 0;
                         fprintf(TargFile, ";%02X%04X", Lo(TransLen), LoWord(ErgStart));
                         ChkIO(TargName);
-                        ChkSum += TransLen + Lo(ErgStart) + Hi(ErgStart);
+                        ChkSum = TransLen + Lo(ErgStart) + Hi(ErgStart);
                         break;
                     case eHexFormatIntel:
                     case eHexFormatIntel16:
